@@ -44,7 +44,7 @@ theorem lookup_n' (Gs : List SEnv) : lookupG ([] :: [(nN, Ty.num)] :: Gs) exGg n
   rw [lookupG_push]; exact lookup_n Gs
 
 theorem fact_call {G : Env} (a : Expr Int) (ha : Typed exΦ G a .num) : Typed exΦ G (.call factN [a]) .num := by
-  refine .call factN [a] { params := [.num], ret := some .num } .num (by simp [exΦ]) rfl rfl ?_
+  refine .call factN [a] { params := [.num], ret := some .num } .num (by simp [exΦ]) rfl rfl rfl ?_
   intro i x pt hx hpt
   cases i with
   | zero => simp at hx hpt; subst hx hpt; exact ha
@@ -58,7 +58,7 @@ theorem progOk : ProgOk exΦ exGg exProg := by
     · rename_i hn; subst hn
       exact ⟨by decide, { name := factN, params := [nN], variadic := none, body := factBody }, by simp [exProg, lookupFunc]⟩
     · cases h
-  · intro name sig fd h hfd
+  · intro name sig fd h hfd _
     simp only [exΦ] at h
     split at h
     · rename_i hn; subst hn
@@ -78,6 +78,11 @@ theorem progOk : ProgOk exΦ exGg exProg := by
         exact .cons _ _ _ _ (.retSome _ _ .num rfl (.num _)) (.nil _)
       · intro b hb; cases hb
       · exact .arith _ _ _ rfl (.var _ _ (lookup_n _)) (fact_call _ (.arith _ _ _ rfl (.var _ _ (lookup_n _)) (.num _)))
+    · cases h
+  · intro name sig fd tv h _ hv
+    simp only [exΦ] at h
+    split at h
+    · cases h; cases hv
     · cases h
 
 theorem stmtsTyped : BTyped exΦ exGg none [] exProg.stmts := by
